@@ -106,6 +106,7 @@ func (p *Process) run() int {
 	if p.procRunCtx.Err() != nil {
 		// this instance was stopped while it was still pending: it must not launch, whatever a newer
 		// instance of the same process has written into the shared state since
+		verifPoint(p, "run_checked", true)
 		return 0
 	}
 	if p.isState(types.ProcessStateTerminating) {
